@@ -398,6 +398,12 @@ func (c *Ctx) batchAffine(fn, top *ssa.Function, xCell, yCell ssa.Value, invFiel
 			}
 		})
 	}
+	if phi, isPhi := src.(*ssa.Phi); isPhi && !okSrc {
+		// filled by one append per iteration from empty
+		if elem, _, ok := appendFill(phi); ok && strings.HasSuffix(core.PathOf(elem), ".inner."+invField+")") {
+			okSrc = true
+		}
+	}
 	if !okSrc {
 		return false, "the inverted values are not the elements' " + invField + " coordinates"
 	}
